@@ -324,9 +324,11 @@ def campaign_tables(ck: Check) -> None:
     camp.evaluations += 1
     ck.notes["generate_steps"] = rep
     vals = dict(t.split("=", 1) for t in rep.split(" ")[1:])
-    for k in ("raisesBeforeWrites", "restoresSome", "restoresNone", "writesOnlyInLoop"):
+    for k in ("raisesBeforeWrites", "restoresSome", "restoresNone", "writesOnlyInLoop", "tableMeetsContract"):
         camp.hit(f"{k}={vals.get(k)}")
     ck.notes["table_refuter"] = vals.get("refuter")
+    ck.notes["refusal_contract_refuter"] = vals.get("contractRefuter")
+    ck.notes["refusals_extracted"] = [{"fn": r[0], "exc": r[1], "msg": r[2], "conds": r[3], "after_parse": r[4], "before_first_write": r[5]} for r in generate_steps.refusals()]
     pre, loop, post, *_ = generate_steps.tables()
     ck.notes["table_sizes"] = {"pre": len(pre), "loopBody": len(loop), "post": len(post)}
     camp.distinct.add(rep)
@@ -614,6 +616,176 @@ def campaign_histories(ck: Check, n: int) -> None:
     camp.wall_s = time.time() - t0
 
 
+# ---------------------------------------------------------------- refusals: which runs must fail, and what a refused run leaves
+REFUSAL_OUTPUT_STATES = ["missing_suffix", "missing_nosuffix", "existing_file_suffix", "existing_file_nosuffix", "empty_dir", "nonempty_dir", "existing_dir_suffix", "stdout"]
+
+OPENAPI_DOTTED = """openapi: "3.0.0"
+info: {title: t, version: "1"}
+paths: {}
+components:
+  schemas:
+    Customer:
+      type: object
+      properties:
+        name: {type: string}
+    shop.orders.Order:
+      type: object
+      properties:
+        id: {type: integer}
+        customer: {$ref: "#/components/schemas/Customer"}
+"""
+
+
+def refusal_cases(rng, n_seeded: int) -> list[dict]:
+    """(name, input kind, files / text, input_file_type, kind of parse result) — every refusal path of generate() by construction:
+    no models; a modular result (dotted schema names in ONE document given as text or as a file; a directory of documents);
+    a single-module result (the control: must not be refused); invalid input (refused before the parse)."""
+    J = json.dumps
+    cases: list[dict] = []
+
+    def both(name, text, ftype, result, suffix=".json"):
+        cases.append({"name": name, "input": "text", "text": text, "ftype": ftype, "result": result})
+        cases.append({"name": name, "input": "file", "files": {"schema" + suffix: text}, "ftype": ftype, "result": result})
+
+    both("modular_dotted", DOCS["modular"][0], "jsonschema", "modular")
+    both("modular_dotted_auto", J({"$schema": "http://json-schema.org/draft-07/schema#", "definitions": {"x.y.Z": obj({"i": {"type": "integer"}}), "W": obj({"z": {"$ref": "#/definitions/x.y.Z"}})}}), "auto", "modular")
+    both("modular_openapi_dotted", OPENAPI_DOTTED, "openapi", "modular", ".yaml")
+    both("single", DOCS["single"][0], "jsonschema", "single")
+    both("single_refs", DOCS["single_refs"][0], "jsonschema", "single")
+    both("single_raw_json", J({"name": "x", "age": 3}), "json", "single")
+    both("nothing", J({"openapi": "3.0.0", "info": {"title": "t", "version": "1"}, "paths": {}}), "openapi", "nothing")
+    both("invalid_auto", "{{{ not a document", "auto", "invalid")
+    both("invalid_json_data", "{not json", "json", "invalid")
+    both("unresolvable_ref", J(obj({"x": {"$ref": "#/definitions/Nope"}})), "jsonschema", "invalid")
+    cases.append({"name": "modular_dir", "input": "dir", "files": {"a.json": J({"title": "A", **obj({"i": {"type": "integer"}})}), "b.json": J({"title": "B", **obj({"a": {"$ref": "a.json"}})})}, "ftype": "jsonschema", "result": "modular"})
+    cases.append({"name": "modular_dir_dotted", "input": "dir", "files": {"a.json": DOCS["modular"][0], "b.json": J({"title": "B", **obj({"s": {"type": "string"}})})}, "ftype": "jsonschema", "result": "modular"})
+    cases.append({"name": "modular_dir_openapi", "input": "dir", "files": {"api.yaml": OPENAPI_DOTTED, "other.yaml": OPENAPI_DOTTED.replace("shop.orders.Order", "Order")}, "ftype": "openapi", "result": "modular"})
+    cases.append({"name": "raw_data_from_dir", "input": "dir", "files": {"a.json": "{}"}, "ftype": "json", "result": "invalid"})
+    cases.append({"name": "single_parsed_dict", "input": "dict", "data": {"name": "x", "tags": ["a"], "pos": {"lat": 1.5}}, "ftype": "dict", "result": "single"})
+    cases.append({"name": "missing_input_auto", "input": "file", "files": {}, "ftype": "auto", "result": "invalid"})
+    for i in range(n_seeded):
+        text, ftype, modular = seeded_doc(rng, 500 + i)
+        kind = rng.choice(["text", "file"])
+        c = {"name": f"seeded{i}", "input": kind, "ftype": ftype, "result": "modular" if modular else "single"}
+        c.update({"text": text} if kind == "text" else {"files": {"schema.json": text}})
+        cases.append(c)
+    return cases
+
+
+def prepare_refusal_output(work: Path, state: str) -> Path | None:
+    (work / "unrelated.txt").write_text("do not touch\n")
+    if state == "stdout":
+        return None
+    suffix = state in ("missing_suffix", "existing_file_suffix", "existing_dir_suffix")
+    out = work / ("models.py" if suffix else "pkg")
+    if state.startswith("existing_file"):
+        out.write_text("# previous content\nPREVIOUS = 1\n")
+    elif state in ("empty_dir", "existing_dir_suffix"):
+        out.mkdir()
+    elif state == "nonempty_dir":
+        (out / "earlier").mkdir(parents=True)
+        (out / "earlier" / "__init__.py").write_text("# earlier result\nOLD = 1\n")
+        (out / "stale.py").write_text("# earlier result\n")
+    return out
+
+
+def refusal_run(ck: Check, camp, case: dict, state: str, base_cls: dict | None = None, relative: bool = False) -> dict:
+    """one real run of a refusal case; evaluates the property's oracle (a failed run changes nothing; cwd as before; a successful
+    run changes only the output; a run the contract refuses is refused). Returns the observation for the model comparison."""
+    import datamodel_code_generator as d
+
+    root = Path(tempfile.mkdtemp(dir=e2e.scratch_root())).resolve()
+    work = root / "parent"
+    work.mkdir()
+    (root / "cwd").mkdir()
+    src = root / "inputs"
+    src.mkdir()
+    for fn, body in (case.get("files") or {}).items():
+        (src / fn).write_text(body, encoding="utf-8")
+    if case["input"] == "text":
+        arg = case["text"]
+    elif case["input"] == "dict":
+        arg = case["data"]
+    elif case["input"] == "dir":
+        arg = src
+    else:
+        arg = src / (next(iter(case.get("files") or {}), None) or "no-such-input.json")
+    out = prepare_refusal_output(work, state)
+    before = snapshot(root)
+    # the output path absolute (called from a foreign directory) or relative to the working directory (= the scratch parent)
+    cwd = work if relative and out is not None else root / "cwd"
+    try:
+        err, cwd_after = call_generate(arg, case["ftype"], Path(out.name) if relative and out is not None else out, {}, cwd)
+    finally:
+        after = snapshot(root)
+        shutil.rmtree(root, ignore_errors=True)
+    camp.evaluations += 1
+    diff = tree_diff(before, after)
+    is_none, has_suffix = out is None, bool(out is not None and out.suffix)
+    must_refuse = case["result"] == "nothing" or (case["result"] == "modular" and (is_none or has_suffix)) or case["result"] == "invalid"
+    inp = {"refusal": {k: case[k] for k in ("name", "input", "ftype", "result") if k in case} | {"text": case.get("text"), "files": case.get("files"), "data": case.get("data")}, "output_state": state, "relative_output": relative}
+    cls = {"kind": "refusal", "stage": "refusal:" + case["result"], "output_state": state, "input_kind": case["input"], **(base_cls or {})}
+    camp.hit(f"state:{state}")
+    camp.hit(f"input:{case['input']}")
+    camp.hit("output-path:" + ("relative" if relative and out is not None else "absolute"))
+    camp.hit(f"result:{case['result']}")
+    camp.hit(("failed:" + type(err).__name__) if err else "succeeded")
+    camp.distinct.add(json.dumps(inp, sort_keys=True))
+    what = f"{case['result']} result of a {case['input']} input ({case['ftype']}) into output state {state}"
+    if Path(cwd_after) != cwd:
+        ck.fail({**cls, "oracle": "cwd_restored", "mechanism": "cwd_changed"}, inp, f"os.getcwd() changed during the run ({what})")
+    if err is not None and diff:
+        ck.fail({**cls, "oracle": "failed_run_tree_unchanged", "mechanism": "os_error_after_open" if isinstance(err, OSError) else "changed_before_raise"}, inp,
+                f"generate() raised {type(err).__name__} and the file tree changed ({what}): {diff[:4]}")
+    if err is None:
+        out_rel = None if out is None else str(out.relative_to(root))
+        outside = [x for x in diff if out_rel is None or not (x.split(":")[0] == out_rel or x.split(":")[0].startswith(out_rel + "/"))]
+        if outside:
+            ck.fail({**cls, "oracle": "success_writes_inside_output", "mechanism": "write_outside_output"}, inp, f"a successful run changed entries outside the output ({what}): {outside[:4]}")
+        if must_refuse and case["result"] != "invalid":
+            ck.fail({**cls, "oracle": "must_refuse_run_is_refused", "mechanism": "refusal_skipped"}, inp,
+                    f"a run that must be refused ({what}) succeeded" + (f" and changed the file tree: {diff[:4]}" if diff else " (tree unchanged)"))
+        elif must_refuse:
+            camp.hit("invalid_input_accepted:" + case["name"])
+    if len(camp.samples) < 3 and err is not None and case["result"] == "modular":
+        camp.samples.append({"case": case["name"], "input": case["input"], "output_state": state, "error": type(err).__name__, "message": str(err)[:80], "tree_changed": bool(diff)})
+    return {"case": case["name"], "input": case["input"], "state": state, "result": case["result"], "is_none": is_none, "has_suffix": has_suffix,
+            "error": None if err is None else type(err).__name__, "message": None if err is None else str(err), "diff": diff}
+
+
+def campaign_refusals(ck: Check, n_seeded: int, only=None, stop_at_first: bool = False) -> None:
+    """every refusal path of generate() x input kinds x output states; the Lean contract (Model/Write.contractDecision) and the
+    decision of the EXTRACTED refusal table are compared with the real run"""
+    camp = ck.campaign("refusals: (no models | modular | single-module | invalid input) x (text, file with dotted names, directory) x (missing with/without suffix, existing file, empty / non-empty directory, stdout): contract and extracted refusal table vs real generate(); refused run leaves the tree unchanged")
+    t0 = time.time()
+    rng = ck.rng.fork("refusals")
+    obs = []
+    for case in refusal_cases(rng, n_seeded):
+        for state in REFUSAL_OUTPUT_STATES:
+            if only is not None and not only(case, state):
+                continue
+            obs.append(refusal_run(ck, camp, case, state, relative=len(obs) % 3 == 2))
+            if stop_at_first and ck.failures:
+                break
+        if stop_at_first and ck.failures:
+            break
+    todo = [o for o in obs if o["result"] != "invalid"]
+    reps = ck.driver.run([f"write.refusal {hx(o['result'])} {int(o['is_none'])} {int(o['has_suffix'])}" for o in todo])
+    for o, rep in zip(todo, reps):
+        vals = dict(t.split("=", 1) for t in rep.split(" ")[1:])
+
+        def dec(v):
+            return ("refused", unhx(v.split(":", 1)[1])) if v.startswith("refused:") else (v.split(":")[0], None)
+        contract, table = dec(vals.get("contract", "?")), dec(vals.get("table", "?"))
+        # the code's own refusals are the `Error`s of generate() after the parse; OS-level errors of the write loop (a directory
+        # where a file goes, a file where a directory goes) are outside the model (OsOk) and judged by the tree oracle alone
+        impl = ("refused", o["message"]) if o["error"] == "Error" else ("proceeds", None)
+        camp.hit("model:" + contract[0])
+        if contract != impl or table != impl:
+            ck.disagree(camp, {k: o[k] for k in ("case", "input", "state", "result")}, {"contract": contract, "extracted_table": table}, {"code": impl, "error": o["error"]})
+    camp.wall_s = time.time() - t0
+
+
 def d17_model_correspondence(ck: Check) -> None:
     """the former D17 witness: model run with an unencodable text vs the real encoding failure"""
     camp = ck.campaign("former D17 witness: model run with an unencodable text vs the real encoding failure (both: failed, nothing changed)")
@@ -637,6 +809,17 @@ def d17_model_correspondence(ck: Check) -> None:
 def search_after_broken_table(ck: Check) -> None:
     """a broken table obligation: run the fault enumeration and the genuine failures again with every
     output state, first hit wins (they are cheap and already targeted at the write protocol)"""
+    # a refusal was removed / moved / re-guarded: the (result, output) the extracted table decides differently from the contract
+    # points at the runs to make — every input kind that gives that kind of result, every output state of that kind
+    ref = ck.notes.get("refusal_contract_refuter") or "none"
+    if ref != "none" and "/" in ref:
+        kind, okind = ref.split("/")
+        want = {"stdout": lambda s: s == "stdout", "suffix": lambda s: s.endswith("_suffix"), "nosuffix": lambda s: s != "stdout" and not s.endswith("_suffix")}[okind]
+        campaign_refusals(ck, 40, only=lambda c, s: c["result"] == kind and want(s), stop_at_first=True)
+    else:
+        campaign_refusals(ck, 40, stop_at_first=True)
+    if ck.failures:
+        return
     probe_camp = ck.campaign("search: genuine failures and injected faults against existing output")
     for name, text, ftype, modular, opts, fclass in GENUINE:
         for state in ("existing_file", "directory_with_results", "missing"):
@@ -679,6 +862,7 @@ def run(ck: Check) -> None:
     campaign_tables(ck)
     campaign_faults(ck, 2 if quick else 30, [1, 2] if quick else [1, 2, 3, 5])
     campaign_genuine(ck)
+    campaign_refusals(ck, 6 if quick else 80)
     campaign_success(ck, 4 if quick else 40)
     campaign_headers(ck, 6 if quick else 120)
     campaign_histories(ck, 30 if quick else 400)
@@ -691,7 +875,9 @@ def replay(ck: Check, path: str) -> int:
     data = json.loads(open(path).read())
     inp = data.get("input") or {}
     camp = ck.campaign("replay")
-    if "doc" in inp:
+    if "refusal" in inp:
+        refusal_run(ck, camp, dict(inp["refusal"]), inp["output_state"], {"kind": "replay"}, relative=inp.get("relative_output", False))
+    elif "doc" in inp:
         doc = inp["doc"]
         if inp.get("text") is not None:
             text, ftype, modular = inp["text"], inp["input_file_type"], inp.get("modular", False)
